@@ -71,6 +71,51 @@ func (e *Engine) VerifyFunc(fn *ssa.Function, ct *FuncContract) (obls []*Obligat
 			}
 		}
 	}
+	// captured function variables declared to hold a sibling closure over the same variables
+	for v, key := range ct.Binds {
+		var slot *ssa.FreeVar
+		for _, f := range fn.FreeVars {
+			if f.Name() == v {
+				slot = f
+			}
+		}
+		g := siblingClosure(fn, key)
+		if slot == nil || g == nil {
+			unsup("bind %s = %s: no such captured variable or sibling closure", v, key)
+		}
+		gv := &FnVal{Fn: g}
+		for _, gf := range g.FreeVars {
+			var val Val
+			for _, f := range fn.FreeVars {
+				if f.Name() == gf.Name() && types.Identical(f.Type(), gf.Type()) {
+					val = fr.env[f]
+				}
+			}
+			if val == nil {
+				// a variable only the sibling captures: nothing is known about it here
+				val = c.freshVal("fv!"+gf.Name(), gf.Type())
+				c.knownAll(st, val)
+				if l, ok := val.(*Loc); ok && l.Base != nil {
+					c.fact(Not(Eq(l.Base, Null)))
+				}
+			}
+			gv.Binds = append(gv.Binds, val)
+		}
+		if l, isCell := fr.env[slot].(*Loc); isCell && l.Kind == "cell" && l.Base != nil {
+			// captured by reference: the variable's cell holds the closure (nobody reassigns it: checked at creation)
+			if st.cells == nil {
+				st.cells = map[string]Val{}
+			}
+			st.cells[l.Base.S] = gv
+			continue
+		}
+		fr.env[slot] = gv
+		for i, f := range fn.FreeVars {
+			if f == slot {
+				fv.Binds[i] = gv
+			}
+		}
+	}
 	// captured variables are distinct variables
 	if fv != nil {
 		var bases []*Term
@@ -334,3 +379,17 @@ func (c *VCtx) packageAxioms(pkg string) {
 }
 
 func h0IsNot(a, b *Term) bool { return a == nil || a.S != b.S }
+
+// siblingClosure finds the closure with the given contract key among the anonymous functions of fn's parent.
+func siblingClosure(fn *ssa.Function, key string) *ssa.Function {
+	p := fn.Parent()
+	if p == nil {
+		return nil
+	}
+	for _, a := range p.AnonFuncs {
+		if k := FuncKey(a); k == key || bareName(k) == bareName(key) {
+			return a
+		}
+	}
+	return nil
+}
